@@ -93,6 +93,18 @@ def reset_library():
 
     _restore_mutable_defaults()
 
+    # every functools cache on a module-level function or on a class attribute of the library (a memo added by a change)
+    import sys
+    for mname, mod in list(sys.modules.items()):
+        if mname == "grid" or mname.startswith("grid.") and ".tests" not in mname:
+            for val in list(vars(mod).values()):
+                if callable(getattr(val, "cache_clear", None)):
+                    val.cache_clear()
+                elif isinstance(val, type) and getattr(val, "__module__", "").startswith("grid"):
+                    for attr in list(vars(val).values()):
+                        fn = getattr(attr, "__func__", attr)
+                        if callable(getattr(fn, "cache_clear", None)):
+                            fn.cache_clear()
     # every module-level dictionary whose name says it is a cache (robust to caches being added, merged or renamed)
     for name, val in list(vars(ang).items()):
         if "CACHE" in name.upper() and isinstance(val, dict):
@@ -202,6 +214,9 @@ class WorldA:
             for mth in self.methods:
                 evs += [("AB", mth), ("Adef", mth), ("AtomDef", mth)]
             evs.append(("AtomDef1",))
+            # a preset atomic grid on its default radial grid; afterwards the caller edits the radial grid object it finds on
+            # the result, in place (seeded change C19-L: one memoised default radial grid shared by all preset grids of an element)
+            evs += [("Preset", 1), ("Preset", 8)]
         for sl in ("a", "b", "s", "g", "m"):
             if sl in self.slots:
                 evs.append(("EditP", sl))
@@ -242,7 +257,7 @@ class WorldA:
                 obs = (_h(g.points), _h(g.weights), int(g.degree))
                 if len(g.points) != len(shipped(mth, dg)[0]):
                     self._bad(f"A:ctor:{mth}:wrong-grid", f"{ev} built a grid of {len(g.points)} points")
-            elif kind in ("AB", "Adef", "AtomDef", "AtomDef1"):
+            elif kind in ("AB", "Adef", "AtomDef", "AtomDef1", "Preset"):
                 self.sized.add(kind if kind == "AtomDef1" else (kind, ev[1]))
                 g = _special_build(self, ev)
                 rp, rw = self._refs[tuple(ev)]
@@ -251,6 +266,9 @@ class WorldA:
                     self._bad(f"A:{kind}:{ev[1] if len(ev) > 1 else 'defaults'}:differs-from-fresh-world",
                               f"{ev}: the grid built after this history ({len(g.weights)} points) differs from the one a fresh process "
                               f"builds for the same call ({len(rw)} points)")
+                if kind == "Preset":
+                    g.rgrid.points[...] *= 2.0
+                    g.rgrid.weights[...] *= 3.0
             elif kind == "EditP":
                 obj = self.slots[ev[1]]
                 arr = obj.points
@@ -438,6 +456,8 @@ def _special_build(world, ev):
             return AngularGrid(method=ev[1])
         if kind == "AtomDef":
             return AtomGrid(world._rgrid(), method=ev[1])
+        if kind == "Preset":
+            return AtomGrid.from_preset(ev[1], "coarse")
         return AtomGrid(OneDGrid(np.array([0.8]), np.array([0.5]), (0, np.inf)))
 
 
@@ -495,6 +515,10 @@ def _references(methods, degrees):
     reset_library()
     g = _special_build(w, ("AtomDef1",))
     refs[("AtomDef1",)] = (np.array(g.points), np.array(g.weights))
+    for z in (1, 8):
+        reset_library()
+        g = _special_build(w, ("Preset", z))
+        refs[("Preset", z)] = (np.array(g.points), np.array(g.weights))
     reset_library()
     _REFS[key] = refs
     return refs
